@@ -691,8 +691,9 @@ Section Commit.
       eapply H_catch with (Q := fun r t => r = i0 /\ AcqPost t) (E1 := fun _ _ => False).
       + unfold get_inventory. apply H_get_tree. intros t1 A.
         destruct (AcqPost_JP1 t1 A) as [[_ P] R].
-        assert (EX : exists_at t1 (c_so c) = true).
-        { unfold exists_at. rewrite node_at_lookup by apply So_ne. fold So. now rewrite (P So (Some Dir) (or_introl eq_refl)). }
+        assert (EX : is_dir t1 (c_so c) && (is_object_rootb t1 (c_so c) || exists_at t1 (c_so c ++ [c_inv c])) = true).
+        { fold So. rewrite (is_dir_lookup t1 So (P So (Some Dir) (or_introl eq_refl))).
+          unfold exists_at, read_file in *. destruct (node_at t1 (So ++ [c_inv c])); [now rewrite orb_true_r | discriminate]. }
         rewrite EX. cbn [negb]. fold So. rewrite R. unfold tok_of. rewrite (invr_eta i0).
         apply H_ret. intros t ->. auto.
       + intros e O. apply H_false_pre. auto.
@@ -1051,10 +1052,11 @@ Section Commit.
       eapply H_andthen with (Q1 := fun t => t = t1); [apply H_ensure_open; intros t ->; split; [reflexivity | auto]|].
       eapply H_bind with (Q1 := fun r t => r = mkInv k0 vs0 spec0 man0 dups0 /\ t = t1).
       { unfold get_inventory. apply H_get_tree. intros ? ->.
-        assert (EX : exists_at t1 Mo = true).
-        { unfold exists_at. rewrite node_at_lookup by apply Mo_ne. now rewrite (t1_main Mo (under_refl _)), MoD. }
-        rewrite EX. cbn [negb]. fold pinv.
         assert (R : read_file t1 pinv = Some oinv) by (apply read_file_lookup; rewrite t1_main by apply under_app; exact MInv).
+        assert (EX : is_dir t1 Mo && (is_object_rootb t1 Mo || exists_at t1 pinv) = true).
+        { rewrite (is_dir_lookup t1 Mo) by (now rewrite (t1_main Mo (under_refl _)), MoD).
+          unfold exists_at, read_file in *. destruct (node_at t1 pinv); [now rewrite orb_true_r | discriminate]. }
+        fold pinv. rewrite EX. cbn [negb].
         rewrite R. unfold oinv. apply H_ret. intros t ->. auto. }
       intros ex. apply H_pure. intros ->.
       assert (HC : negb (seg_eqb (head_of (mkInv k0 vs0 spec0 man0 dups0)) (last (removelast (i_vs i)) [])) = false).
